@@ -77,9 +77,27 @@ Definition s_model_ok (c : scase) : bool :=
   res_eqb value_eqb (rsub_gen c.(s_tables) FUEL c.(s_obj) c.(s_sel)) c.(s_obs)
   && match c.(s_sel) with Some d => sdict_eqb (unflatten_selection_gen d) c.(s_unflat) | None => true end
   && anns_ok c.(s_tables) c.(s_anns).
+(* the SPEC reads "holds a dataclass" / "is Optional" off the annotation that was WRITTEN (spec_holds_dc, spec_optional),
+   not off what the implementation's helpers answered; everything else in the tables is observed *)
+Fixpoint ann_of (l : list (string * string * ann)) (cls name : string) : option ann :=
+  match l with
+  | [] => None
+  | (c, n, a) :: r => if String.eqb c cls && String.eqb n name then Some a else ann_of r cls name
+  end.
+Definition spec_tables (T : tables) (l : list (string * string * ann)) : tables :=
+  mktables (map (fun cnm => match ann_of l (fst (fst cnm)) (snd (fst cnm)) with
+                            | Some a => (fst cnm, mkfmeta (spec_holds_dc a) (spec_optional a)
+                                                          (m_subgroups (snd cnm)) (m_factory (snd cnm)))
+                            | None => cnm
+                            end) (t_meta T))
+           (t_classes T).
+
 Definition s_spec_ok (c : scase) : bool :=
   c.(s_input_unchanged)
-  && match c.(s_abs) with Some a => sub_check c.(s_tables) a c.(s_obj) c.(s_obs) | None => true end.
+  && match c.(s_abs) with
+     | Some a => sub_check (spec_tables c.(s_tables) c.(s_anns)) a c.(s_obj) c.(s_obs)
+     | None => true
+     end.
 
 Inductive case := CRep (c : rcase) | CSub (c : scase).
 Definition in_scope (c : case) : bool := match c with CRep r => r_in_scope r | CSub s => s_in_scope s end.
